@@ -24,6 +24,14 @@ CHECKS['C08'] = (OTHER, 'symbolic execution of the real Panel.calc_fint/calc_kT 
     'Bounded symbolic verification: for all amplitudes (generic, membrane-only, bending-only), laminates incl. B, flags, geometry, per symbolic quadrature point and weight: fint = energy gradient, kT = exact Jacobian and symmetric, fint(0)=0, kT(0)=kL(0); uniform vs per-point laminate table.',
     'Bounds (m,n), quadrature points per evidence; reals; function atoms = Bardell polynomials (C10); assemblies are covered under C12/C13.',
     'DESIGN.md section 4 C08')
+CHECKS['C01'] = (OTHER, 'symbolic execution of the real read_stack/Lamina.rebuild/calc_constitutive_matrix on symbolic (cos,sin), thicknesses, materials, offset vs explicit tensor-rotation + through-thickness integral oracle; relational corollaries between executions; z3 qfnra-nlsat; exact-rational replay',
+    'Bounded symbolic verification for N plies (quick 1-2, thorough 1-4), all three material tuple forms, both argument forms: every A/B/D/E/ABD/ABDE entry equals the integral of the rotated ply stiffness for all real inputs; symmetry, d-shift, mid-plane symmetry, ply-order independence of A, angle mirroring, 90-degree rotation; positive definiteness via three NRA lemmas.',
+    'Angles only through (cos,sin) with c^2+s^2=1; reals; numpy object arrays; N bounded.',
+    'DESIGN.md section 4 C01')
+CHECKS['C04'] = (OTHER, 'symbolic execution of the real Panel.calc_kM over de-Cythonised fkM/fkMy1y2 vs kinetic-energy Hessian oracle (z-origin = laminate offset convention); coupling sign and magnitude as separate obligations; total mass with exactly interpreted tables; z3 qfnra-nlsat; exact-rational replay; compiled-vs-twin translator validation',
+    'Bounded symbolic verification for all real mu, thicknesses, offset of either sign, geometry, flags, sub-intervals: translational, coupling, rotary terms; tiling; placement; unit rigid translation gives mu*h*area.',
+    'Bounds per evidence; reals; atoms = exact integrals (C10); PD and frequency invariance are corollaries of the proven energy form.',
+    'DESIGN.md section 4 C04')
 NA = {
     'C15': 'eigenvalue monotonicity/convergence for pencils of size 48..768 is not a bounded first-order query any installed solver can decide; the algebraic ingredients (exact Hessians, exact tables, nestedness) are decided under C02-C04 and C10 (DESIGN.md section 5)',
 }
